@@ -48,12 +48,15 @@ impl<'a> ParserBuilder<'a> {
         let psess = self.psess.ok_or(ParserError::NoParseSess)?;
         let input = self.input.ok_or(ParserError::NoInput)?;
 
-        let parser = match Self::parser(psess.inner(), input) {
-            Ok(p) => p,
-            Err(diagnostics) => {
+        // The lexer runs while the parser is created and raises a fatal error on, e.g., an
+        // unterminated string literal.
+        let parser = match catch_unwind(AssertUnwindSafe(|| Self::parser(psess.inner(), input))) {
+            Ok(Ok(p)) => p,
+            Ok(Err(diagnostics)) => {
                 psess.emit_diagnostics(diagnostics);
                 return Err(ParserError::ParserCreationError);
             }
+            Err(_) => return Err(ParserError::ParsePanicError),
         };
 
         Ok(Parser { parser })
